@@ -1,6 +1,6 @@
 """C15 - library-chosen common value is a most frequent value; equality is canonical (DESIGN.md 3, C15)."""
 from .. import machine as M
-from ..core import Sub
+from ..core import Sub, Violation
 
 PROPERTY = "C15"
 LEVEL = "exploration"
@@ -13,7 +13,9 @@ RULE = (
     "not (a == b) and never raises; a == a; a equals the index built directly from its own dense content; a == x is "
     "False and a != x is True for x in {dict, list, tuple, None, int, str, ndarray}. Non-trivial = a history with a "
     "mutation and (a pair with equal keys but different row ids, or equal content reached by different histories, or "
-    "a checked normalisation). Distinct by the full operation list."
+    "a checked normalisation). Distinct by the full operation list. array_common: the C01 array strategy with the "
+    "common value omitted (counts and mappings, incl. many-to-one, still drawn): the chosen common value must be "
+    "a most frequent (mapped) value; non-trivial = a tie for the maximum or a mapping."
 )
 ASSUMPTIONS = [
     "dense content is read by an independent reader; non-index comparands are plain objects, not duck-typed indexes",
@@ -27,4 +29,55 @@ def runner(sub, tier, seed, shard, nshards, rec):
     M.run_machine(sub, tier, seed, shard, nshards, rec, "C15", EX, STEPS)
 
 
-SUBS = [Sub("histories", M.replay, runner=runner, examples=EX, weight=5)]
+def array_cases(tier):
+    from . import c01
+
+    return c01.cases(tier)
+
+
+def check_array_common(case, rec):
+    """from_array without a common value picks a most frequent (mapped) value."""
+    import numpy
+
+    from catii import iindex
+
+    from . import c01
+
+    if case["common"] is not None:
+        case = dict(case, common=None)
+    flat = c01.flat_values(case)
+    a = numpy.array(flat, dtype=numpy.int64).reshape(case["shape"])
+    if a.size == 0:
+        return
+    kwargs = {}
+    if case["counts"]:
+        kwargs["counts"] = {v: flat.count(v) for v in sorted(set(flat))}
+    m = None
+    if case["mapping"] is not None:
+        m = {k: v for k, v in case["mapping"]}
+        m = {k: v for k, v in m.items() if k in set(flat)}
+        kwargs["mapping"] = dict(m)
+    try:
+        ix = iindex.from_array(a, **kwargs)
+    except Exception:
+        rec.note("from_array raised (C01 decides that)")
+        return
+    mapped = flat if m is None else [m[x] for x in flat]
+    counts = {}
+    for v in mapped:
+        counts[v] = counts.get(v, 0) + 1
+    best = max(counts.values())
+    if counts.get(ix.common, 0) != best:
+        raise Violation("from_array chose common %r which occurs %d times; %r occurs %d times" % (
+            ix.common, counts.get(ix.common, 0), max(counts, key=counts.get), best),
+            sig="from_array: chosen common is not a most frequent value")
+    rec.note("class=" + case["cls"], "mapping=" + case["mapkind"])
+    top = [v for v, c in counts.items() if c == best]
+    if len(counts) >= 2 and (len(top) >= 2 or m is not None):
+        rec.nontrivial()
+
+
+SUBS = [
+    Sub("histories", M.replay, runner=runner, examples=EX, weight=5),
+    Sub("array_common", check_array_common, strategy=array_cases, examples={"quick": 8000, "thorough": 200000}),
+]
